@@ -719,3 +719,104 @@ Proof.
   - unfold cmd_jsrun in H. rewrite Hw in H. top H; injection H as <-; reflexivity.
   - unfold cmd_prte in H. top H; injection H as <-; reflexivity.
 Qed.
+
+(* =============================================================== *)
+(* bulks: Popen.work handles every task of a bulk on its own        *)
+(* =============================================================== *)
+Lemma upd_nth_same {A} (d : A) : forall (l : list A) i, upd i (nth i l d) l = l.
+Proof.
+  induction l as [|y r IH]; intros [|k]; simpl; try reflexivity. rewrite IH. reflexivity.
+Qed.
+
+Lemma handle_st_state : forall cs sts t, fst (handle_st cs sts t) = sts.
+Proof.
+  intros cs sts t. unfold handle_st.
+  destruct (find_launcher cs t) as [e|[[i c]|]]; try reflexivity.
+  pose proof (step_state c (nth i sts []) t) as Hs.
+  destruct (get_launch_cmds c (nth i sts []) t) as [st' o]. simpl in Hs. subst st'.
+  simpl. apply upd_nth_same.
+Qed.
+
+(* work bulk = map handle bulk, whatever the launchers' states *)
+Lemma work_st_map : forall cs bulk sts,
+  work_st cs sts bulk = map (fun t => snd (handle_st cs sts t)) bulk.
+Proof.
+  intros cs bulk; induction bulk as [|t r IH]; intro sts; simpl; [reflexivity|].
+  pose proof (handle_st_state cs sts t) as Hs.
+  destruct (handle_st cs sts t) as [sts' h]. simpl in Hs. subst sts'. simpl. rewrite IH. reflexivity.
+Qed.
+
+Lemma work_map : forall cs bulk, work cs bulk = map (handle cs) bulk.
+Proof. intros. unfold work, handle. apply work_st_map. Qed.
+
+(* the outcome of task t in any bulk is its outcome alone *)
+Lemma bulk_task_alone : forall cs a t b,
+  nth_error (work cs (a ++ t :: b)) (length a) = Some (handle cs t).
+Proof.
+  intros. rewrite work_map, map_app. simpl.
+  rewrite nth_error_app2 by (rewrite map_length; apply le_n).
+  rewrite map_length, Nat.sub_diag. reflexivity.
+Qed.
+
+Lemma work_app : forall cs a b, work cs (a ++ b) = work cs a ++ work cs b.
+Proof. intros. rewrite !work_map. apply map_app. Qed.
+
+(* a refused task changes nothing for the other tasks of the bulk *)
+Lemma bulk_refused_neutral : forall cs a r b, handle cs r = HFailed ->
+  work cs (a ++ r :: b) = work cs a ++ HFailed :: work cs b /\
+  work cs (a ++ b) = work cs a ++ work cs b.
+Proof.
+  intros cs a r b Hr. split; [|apply work_app].
+  rewrite work_app. f_equal. rewrite !work_map. simpl. rewrite Hr. reflexivity.
+Qed.
+
+Lemma nth_fresh : forall cs i, nth i (fresh cs) [] = [].
+Proof. unfold fresh. induction cs as [|c r IH]; intros [|k]; simpl; auto. Qed.
+
+(* a launched task was launched by the first launcher of the order that
+   accepts it, with that launcher's command for this task *)
+Lemma handle_launched : forall cs t i cmd, handle cs t = HLaunched i cmd ->
+  exists c, find_launcher cs t = inr (Some (i, c)) /\ nth_error cs i = Some c /\
+            can_launch c t = inr true /\ snd (get_launch_cmds c [] t) = inr cmd.
+Proof.
+  intros cs t i cmd H. unfold handle, handle_st in H.
+  destruct (find_launcher cs t) as [e|[[j c]|]] eqn:Hf; try discriminate.
+  rewrite nth_fresh in H.
+  destruct (get_launch_cmds c [] t) as [st' o] eqn:Hg. simpl in H.
+  destruct o as [e|cmd']; [discriminate|]. injection H as <- <-.
+  exists c. destruct (find_launcher_sound cs t j c Hf) as [Hc Hn].
+  repeat split; auto. rewrite Hg. reflexivity.
+Qed.
+
+Lemma bulk_own_refl : forall cs t, bulk_launcher_is_own cs t (handle cs t) = true.
+Proof.
+  intros. unfold bulk_launcher_is_own. destruct (handle cs t); [reflexivity|apply Nat.eqb_refl].
+Qed.
+
+Lemma bulk_task_enacts : forall cs t, valid t -> (forall c, In c cs -> proven c) ->
+  bulk_cmd_matches_placement cs t (handle cs t) = true.
+Proof.
+  intros cs t Hv Hall. unfold bulk_cmd_matches_placement, bulk_clause.
+  destruct (handle cs t) as [|i cmd] eqn:Hh; [reflexivity|].
+  destruct (handle_launched cs t i cmd Hh) as [c [Hf [Hn [Hcan Hg]]]]. cbv beta iota. rewrite Hn.
+  assert (Hp : proven c) by (apply Hall; eapply nth_error_In, Hn).
+  pose proof (selected_enacts cs t i c [] Hf Hv Hp) as H. cbv zeta in H. rewrite Hg in H.
+  destruct H as [H1 [H2 H3]]. apply andb_true_iff; split; [apply andb_true_iff; split|]; assumption.
+Qed.
+
+Lemma all2_map {A B} (f : A -> B -> bool) (g : A -> B) (l : list A) :
+  (forall x, In x l -> f x (g x) = true) -> all2 f l (map g l) = true.
+Proof.
+  induction l as [|x l IH]; intro H; simpl; [reflexivity|].
+  rewrite H by (left; reflexivity). apply IH. intros y Hy. apply H. right. exact Hy.
+Qed.
+
+(* the two bulk clauses hold on the model for every bulk *)
+Lemma bulk_rows_hold : forall cs bulk, (forall t, In t bulk -> valid t) -> (forall c, In c cs -> proven c) ->
+  all2 (bulk_launcher_is_own cs) bulk (work cs bulk) = true /\
+  all2 (bulk_cmd_matches_placement cs) bulk (work cs bulk) = true.
+Proof.
+  intros cs bulk Hv Hall. rewrite work_map. split; apply all2_map.
+  - intros t _. apply bulk_own_refl.
+  - intros t Ht. apply bulk_task_enacts; auto.
+Qed.
